@@ -616,7 +616,38 @@ def h_digitalvalue(case):
     return {'out': out}
 
 
+_CJK_REAL = dict(zip('zabcdefghilSBQWY', '\u96f6\u4e00\u4e8c\u4e09\u56db\u4e94\u516d\u4e03\u516b\u4e5d\u4e24\u5341\u767e\u5343\u4e07\u4ebf'))
+
+
+def h_cjkint(case):
+    """BaseCJKNumberParser.get_int_value on texts written in the stand-in alphabet of CJKIntValue.tla (advisory binding)"""
+    global _CJKP
+    try:
+        _CJKP
+    except NameError:
+        _CJKP = {}
+    cul = case['culture']
+    if cul not in _CJKP:
+        from recognizers_number.number.parser_factory import AgnosticNumberParserFactory, ParserType
+        from recognizers_number.culture import CultureInfo
+        if cul == 'zh-cn':
+            from recognizers_number.number.chinese.parsers import ChineseNumberParserConfiguration as Conf
+        else:
+            from recognizers_number.number.japanese.parsers import JapaneseNumberParserConfiguration as Conf
+        _CJKP[cul] = AgnosticNumberParserFactory.get_parser(ParserType.NUMBER, Conf(CultureInfo(cul)))
+    out = []
+    for t in case['texts']:
+        real = ''.join(_CJK_REAL.get(ch, ch) for ch in t)
+        try:
+            v = _CJKP[cul].get_int_value(real)
+            out.append(int(v) if v == int(v) else str(v))
+        except Exception as ex:
+            out.append(type(ex).__name__)
+    return {'out': out}
+
+
 _HANDLERS = {
+    'cjkint': h_cjkint,
     'digitalvalue': h_digitalvalue,
     'addmod': h_addmod,
     'generatedates': h_generatedates,
